@@ -36,8 +36,10 @@ FIELDS = [
     {"name": "d", "kind": "bit", "w": 2, "signed": False, "rand": True, "init": 0},
     {"name": "s1.x", "kind": "bit", "w": 3, "signed": False, "rand": True, "init": 0},
     {"name": "s2.y", "kind": "bit", "w": 3, "signed": False, "rand": True, "init": 3},   # declared rand, but s2 is attr()
+    {"name": "q[0]", "kind": "bit", "w": 2, "signed": False, "rand": True, "init": 0},    # element of a fixed-size random list
 ]
 TOGGLE = ["a", "b", "d", "s1.x"]
+ASSIGNABLE = [f for f in FIELDS]
 
 CLASS_SRC = '''
 @vsc.randobj
@@ -61,6 +63,7 @@ class T(object):
         self.s2 = vsc.attr(S2())
         self.nl = vsc.list_t(vsc.bit_t(3))
         self.rl = vsc.rangelist((0, 7))
+        self.q = vsc.rand_list_t(vsc.bit_t(2), sz=1)
     @vsc.constraint
     def c0(self):
 %s
@@ -85,6 +88,10 @@ def programs(d):
         extra.append(["rl_in", d.choice(["a", "d", "s1.x"])])
     if d.chance(60):
         extra.append(["nl_in", d.choice(["a", "b", "d"])])
+    if d.chance(45):
+        extra.append(["fe_rl"])          # foreach element of the random list: it in the mutable rangelist
+    if d.chance(45):
+        extra.append(["fe_nl", d.choice(["a", "d"])])   # foreach index of the NON-random list: field != nl[i]
     return {"stmts": stmts, "extra": extra}
 
 
@@ -96,26 +103,31 @@ def source(prog):
     for e in prog["extra"]:
         if e[0] == "rl_in":
             lines.append("        self.%s.inside(self.rl)" % e[1])
-        else:
+        elif e[0] == "nl_in":
             lines.append("        self.%s.inside(self.nl)" % e[1])
+        elif e[0] == "fe_rl":
+            lines.append("        with vsc.foreach(self.q) as it:")
+            lines.append("            it.inside(self.rl)")
+        else:
+            lines.append("        with vsc.foreach(self.nl, idx=True) as i:")
+            lines.append("            self.%s != self.nl[i]" % e[1])
     if not lines:
         lines = ["        pass"]
     return CLASS_SRC % (c0, "\n".join(lines))
 
 
 def getp(obj, key):
-    cur = obj
-    for part in key.split("."):
-        cur = getattr(cur, part)
-    return int(cur)
+    from ..model import tree
+    return tree.getp(obj, key)
 
 
 def setp(obj, key, v):
-    parts = key.split(".")
-    cur = obj
-    for part in parts[:-1]:
-        cur = getattr(cur, part)
-    setattr(cur, parts[-1], v)
+    if key.endswith("]"):
+        name, idx = key[:-1].split("[")
+        getattr(obj, name)[int(idx)] = v
+        return
+    from ..model import tree
+    tree.setp(obj, key, v)
 
 
 def rawp(vsc, obj, key):
@@ -154,11 +166,16 @@ class Session:
     def class_stmts(self):
         out = list(self.prog["stmts"])
         for e in self.prog["extra"]:
+            items = [["rng", ["lit", it[0]], ["lit", it[1]]] if isinstance(it, list) else ["lit", it] for it in self.rl]
             if e[0] == "rl_in":
-                items = [["rng", ["lit", it[0]], ["lit", it[1]]] if isinstance(it, list) else ["lit", it] for it in self.rl]
                 out.append(["expr", ["in", ["f", e[1]], items]])
-            else:
+            elif e[0] == "nl_in":
                 out.append(["expr", ["inl", ["f", e[1]], "nl"]])     # elements are bit_t(3) fields, not literals
+            elif e[0] == "fe_rl":
+                out.append(["expr", ["in", ["f", "q[0]"], items]])
+            else:
+                for i in range(len(self.nl)):
+                    out.append(["expr", ["bin", "!=", ["f", e[1]], ["el", "nl", ["lit", i], None]]])
         return out
 
     def random_for_object_call(self):
@@ -298,7 +315,9 @@ class Session:
 
 # ------------------------------------------------------------------------------------------------
 def inline_strategy(d, keys):
-    g = gen.G(d, [f for f in FIELDS], {}, mul_max_w=3)
+    # free-standing calls over field subsets (keys given) name scalar fields only: a list element of an unpassed list
+    # as a constant operand runs into unfinished library paths (noted in DESIGN.md section 7, not a C03 subject)
+    g = gen.G(d, [f for f in FIELDS if keys is None or "[" not in f["name"]], {}, mul_max_w=3)
     return [g.field_stmt(0) for _ in range(d.randint(1, 2))]
 
 
